@@ -1406,7 +1406,8 @@ bool Interpret::is_top_level_assertion(PTRef ref) {
 }
 
 int Interpret::get_assertion_index(PTRef ref) {
-    for (int i = 0; i < assertions.size(); ++i) {
+    // `assertions` also remembers popped assertions; the most recent occurrence is the current one
+    for (int i = assertions.size() - 1; i >= 0; --i) {
         if (ref == assertions[i]) { return i;}
     }
     return -1;
